@@ -4,6 +4,8 @@ This module provides request handler classes for processing Gemini requests
 and generating responses, including Titan upload handlers.
 """
 
+import os
+import tempfile
 from abc import ABC, abstractmethod
 from pathlib import Path
 from typing import TYPE_CHECKING
@@ -386,10 +388,30 @@ class FileUploadHandler(UploadHandler):
                 meta="Invalid path",
             )
 
+        # The target must denote a file below the upload directory
+        if target == self.upload_dir or target.is_dir():
+            return GeminiResponse(
+                status=StatusCode.BAD_REQUEST.value,
+                meta="Invalid path",
+            )
+
         # 6. Save file
         try:
             target.parent.mkdir(parents=True, exist_ok=True)
-            target.write_bytes(request.content)
+            # Write to a temporary file in the same directory and move it into
+            # place, so a failure part-way never damages an existing file or
+            # leaves a partial one behind
+            fd, tmp_name = tempfile.mkstemp(dir=target.parent, prefix=".upload-")
+            try:
+                with os.fdopen(fd, "wb") as tmp_file:
+                    tmp_file.write(request.content)
+                os.replace(tmp_name, target)
+            except BaseException:
+                try:
+                    os.unlink(tmp_name)
+                except OSError:
+                    pass
+                raise
 
             return GeminiResponse(
                 status=StatusCode.SUCCESS.value,
